@@ -23,7 +23,9 @@ enum {
 };
 
 enum { PLAN_KILL = 1, PLAN_WAIT = 2 };
-enum { FATE_NONE = 0, FATE_EXECED = 1, FATE_FAILED = 2, FATE_RETURNED = 3 };
+/* what the forked child does: reaches exec / returns to the caller (fork mode),
+   or fails inside process_fork (EARLY) or between process_fork and exec (LATE) */
+enum { FATE_NONE = 0, FATE_EXECED = 1, FATE_FAILED_EARLY = 2, FATE_FAILED_LATE = 3 };
 
 struct ghost {
   /* ---- descriptor ledger: bit k describes descriptor k -------------------- */
@@ -43,6 +45,8 @@ struct ghost {
   int child_fate_errno;
   int reaps;          /* successful reaps                                     */
   int wait_calls, kill_calls, fork_calls;
+  int fork_stage;     /* 0: no fork; 1: forked, process_fork's report pending;
+                         2: process_start's report pending; 3: both read */
   int sig_log[4];     /* signals delivered to the child, in order             */
   int nsig;
   /* ---- process-wide state the caller owns --------------------------------- */
@@ -72,7 +76,19 @@ struct ghost {
   uint32_t poll_fds;    /* descriptors handed to the last poll                */
   uint32_t poll_ready;  /* ... of which reported with revents != 0            */
   /* ---- start-up input cursor (C02) ------------------------------------------ */
-  int in_fd; const uint8_t *in_data; size_t in_size; size_t stream_pos;
+  int in_fd; size_t stream_pos;
+  /* strdup / path_prepend_cwd / strv_concat provenance */
+  const char *dup_src; char *dup_ptr;       /* strdup: dup_ptr is a copy of dup_src      */
+  const char *prep_src; char *prep_ptr;     /* path_prepend_cwd: prep_ptr = cwd/prep_src */
+  char **env_ptr; char *const *env_a; const char *const *env_b; /* strv_concat: env_ptr = a ++ b */
+  int plan_pos;              /* stop-sequence monitor: next expected step */
+};
+
+/* What the harness fixes before the call and nothing in the OS layer ever
+   writes: configuration of the OS model, the launch request checked by the execvp
+   contract, the stop-sequence plan. A separate object, so that a contract that
+   frames `g` as a whole leaves it alone. */
+struct ghost_cfg {
   /* ---- configuration chosen by the harness ---------------------------------- */
   bool cfg_nofault;      /* no injected failures                               */
   bool cfg_child_side;   /* fork() returns 0                                   */
@@ -89,16 +105,19 @@ struct ghost {
   int want_cwd_id;
   /* ---- stop-sequence monitor (C07/C15): the expected OS-level steps ----------- */
   bool plan_on;
-  int plan_n, plan_pos;
+  int plan_n;
   int plan_kind[8];          /* PLAN_KILL / PLAN_WAIT                          */
   int plan_arg[8];           /* signal number / raw action timeout             */
   int plan_invalid_at;       /* step position of the first out-of-range action, or -1 */
   int64_t plan_deadline;     /* the handle's deadline (-1: none)               */
-  /* strdup / path_prepend_cwd / strv_concat provenance */
-  const char *dup_src; char *dup_ptr;
+  const uint8_t *in_data; size_t in_size;   /* start-up input (C02) */
+  const char *want_argv0; bool want_prepend;
+  char *const *want_env_a; const char *const *want_env_b;
 };
 
 extern struct ghost g;
+extern struct ghost_cfg gc;
+extern char **environ;
 
 #define FD_OK(fd) ((fd) >= 0 && (fd) < VERIF_NFD)
 #define BIT(fd) (1u << (fd))
